@@ -162,6 +162,20 @@ pub fn positions(tier: &Tier) -> Result<Vec<Position>, String> {
         }
         out.push(Position { name: "wrapped-g3".into(), w, tip: t, side: None, spent_elsewhere: None, expired_present: None, prelude: vec![], phantom: None, witnessed: None, abandoned_output: None });
     }
+    // a node that joined mid-chain: its first block is block 3 of a chain at genesis period 3; by
+    // design it cannot check the inputs of blocks 4..6 (they may come from blocks it never had),
+    // but every input admissible in block 7 was created in blocks 4..6, which it wound itself:
+    // from block 7 on its checks are those of every other node
+    {
+        let mut w = world(3);
+        let mut t = 0;
+        for i in 0..5 {
+            t = w.honest_child(t, 0, &format!("J{}", i + 2))?;
+        }
+        let order: Vec<usize> = w.path(t).into_iter().filter(|&i| w.blocks[i].id >= 3).collect();
+        let prune = w.cfg.consensus.prune_after_blocks;
+        out.push(Position { name: "node-joined-at-block-3-now-at-3+g".into(), w, tip: t, side: None, spent_elsewhere: None, expired_present: None, prelude: vec![], phantom: None, witnessed: Some((order, prune)), abandoned_output: None });
+    }
     // window wrapped with a fee level >= 1 nolan/byte: a dust output is not rebroadcast but
     // stays in the map until the 2g purge
     if true {
@@ -325,6 +339,22 @@ pub fn candidates(p: &Position) -> Vec<Candidate> {
             v.push(Candidate { edit: "already-spent-input".into(), tx: make_tx(&[sp.clone()], &[(att.public, sp.amount)], &own1, ts, b"x"), tx2: None, control: false });
             // replay of the very transaction that spent it
             v.push(Candidate { edit: "replayed-transaction".into(), tx: stx.clone(), tx2: None, control: false });
+        }
+    }
+    // created AND spent inside the window (a node that joined mid-chain saw both happen)
+    {
+        let path = w.path(p.tip);
+        'find: for &bi in path.iter().rev().take(2) {
+            let blk = decode_block(&w.blocks[bi].bytes);
+            for stx in blk.transactions.iter().filter(|t| t.transaction_type == TransactionType::Normal) {
+                if let Some(sp) = stx.from.iter().find(|s| s.amount > 0 && in_win(s)) {
+                    if let Some(owner) = (0..10u8).map(key).find(|k| k.public == sp.public_key) {
+                        v.push(Candidate { edit: "already-spent-recent-input".into(), tx: make_tx(&[sp.clone()], &[(att.public, sp.amount)], &owner, ts, b"x"), tx2: None, control: false });
+                        v.push(Candidate { edit: "replayed-recent-transaction".into(), tx: stx.clone(), tx2: None, control: false });
+                        break 'find;
+                    }
+                }
+            }
         }
     }
     // created only on a fork the node followed and then abandoned
